@@ -24,6 +24,7 @@ type hier struct {
 	Par []int    `json:"par"`
 	Grp []bool   `json:"grp"`
 	Nm  []string `json:"nm"`
+	Mk  []string `json:"mk,omitempty"` // record shape of a non-group declaration: "name" (default) | "rows2" | "hf"
 	Mn  []int    `json:"mn"`
 	Mx  []int    `json:"mx"`
 	Tgt int      `json:"tgt"`
@@ -32,9 +33,47 @@ type hier struct {
 type c05Case struct {
 	H      hier      `json:"h"`
 	Input  []string  `json:"input"`
-	Out    [][][]int `json:"out"` // instances; each a pre-order list of [d, u, depth]
+	Out    [][][]int `json:"out"` // instances; each a pre-order list of [d, u, depth, e]
 	Status string    `json:"status"`
 	Errd   int       `json:"errd"`
+}
+
+func (h *hier) mk(d int) string {
+	if len(h.Mk) < d || h.Mk[d-1] == "" {
+		return "name"
+	}
+	return h.Mk[d-1]
+}
+
+const footerName = "Z"
+
+// consumed mirrors Hierarchy!Consumed only for the *scripted* RecReader (a stand-in for csv2 / fixedlength2 line
+// matching, which have their own, real implementation): units one instance of d takes at 0-based pos; 0 = no match.
+func (h *hier) consumed(in []string, d, pos int) int {
+	if pos >= len(in) {
+		return 0
+	}
+	switch h.mk(d) {
+	case "rows2":
+		if pos+1 < len(in) {
+			return 2
+		}
+		return 0
+	case "hf":
+		if in[pos] != h.Nm[d-1] {
+			return 0
+		}
+		for j := pos; j < len(in); j++ {
+			if in[j] == footerName {
+				return j - pos + 1
+			}
+		}
+		return 0
+	}
+	if in[pos] == h.Nm[d-1] {
+		return 1
+	}
+	return 0
 }
 
 func (h *hier) kids(p int) []int {
@@ -49,7 +88,7 @@ func (h *hier) kids(p int) []int {
 
 // observed result of one implementation on one case
 type c05Obs struct {
-	Out     [][][]interface{} `json:"out"` // instances; pre-order [node name, u, depth]
+	Out     [][][]interface{} `json:"out"` // instances; pre-order [node name, u, depth, e]
 	Status  string            `json:"status"`
 	Errname string            `json:"errname"`
 	Extra   string            `json:"extra,omitempty"`
@@ -71,7 +110,7 @@ func viewOf(h *hier, out [][][]int, impl string) [][][]interface{} {
 	for _, inst := range out {
 		var e [][]interface{}
 		for _, t := range inst {
-			e = append(e, []interface{}{nameOfDecl(h, t[0], impl), t[1], t[2]})
+			e = append(e, []interface{}{nameOfDecl(h, t[0], impl), t[1], t[2], t[3]})
 		}
 		res = append(res, e)
 	}
@@ -114,7 +153,8 @@ func (r *scriptedRecReader) MoreUnprocessedData() (bool, error) {
 }
 func (r *scriptedRecReader) ReadAndMatch(decl flatfile.RecDecl, createIDR bool) (bool, *idr.Node, error) {
 	d := decl.(*hDecl)
-	if r.pos >= len(r.units) || r.units[r.pos] != d.h.Nm[d.idx-1] {
+	cn := d.h.consumed(r.units, d.idx, r.pos)
+	if cn == 0 {
 		return false, nil, nil
 	}
 	if !createIDR {
@@ -124,22 +164,28 @@ func (r *scriptedRecReader) ReadAndMatch(decl flatfile.RecDecl, createIDR bool) 
 	u := idr.CreateNode(idr.ElementNode, "u")
 	idr.AddChild(n, u)
 	idr.AddChild(u, idr.CreateNode(idr.TextNode, strconv.Itoa(r.pos+1)))
-	r.pos++
+	e := idr.CreateNode(idr.ElementNode, "e")
+	idr.AddChild(n, e)
+	idr.AddChild(e, idr.CreateNode(idr.TextNode, strconv.Itoa(r.pos+cn)))
+	r.pos += cn
 	return true, n, nil
 }
 
-// encodeInstance turns a delivered IDR subtree into pre-order [node name, u, depth] tokens; the unit
-// index travels in the "u" column/element of every non-group instance.
+// encodeInstance turns a delivered IDR subtree into pre-order [node name, u, depth, e] tokens; the index of the
+// first unit travels in the "u" column/element of every non-group instance, that of its last unit in "e".
 func encodeInstance(n *idr.Node, depth int, out *[][]interface{}) {
-	u := 0
+	u, e := 0, 0
 	for c := n.FirstChild; c != nil; c = c.NextSibling {
 		if c.Type == idr.ElementNode && c.Data == "u" && c.FirstChild != nil {
 			u, _ = strconv.Atoi(strings.TrimSpace(c.FirstChild.Data))
 		}
+		if c.Type == idr.ElementNode && c.Data == "e" && c.FirstChild != nil {
+			e, _ = strconv.Atoi(strings.TrimSpace(c.FirstChild.Data))
+		}
 	}
-	*out = append(*out, []interface{}{n.Data, u, depth})
+	*out = append(*out, []interface{}{n.Data, u, depth, e})
 	for c := n.FirstChild; c != nil; c = c.NextSibling {
-		if c.Type == idr.ElementNode && c.Data != "u" {
+		if c.Type == idr.ElementNode && c.Data != "u" && c.Data != "e" {
 			encodeInstance(c, depth+1, out)
 		}
 	}
@@ -197,15 +243,31 @@ func renderDecl(h *hier, d int, format string) string {
 	switch format {
 	case "csv2":
 		kidsKey, groupType = "child_records", "record_group"
-		match = fmt.Sprintf(`"header": "^%s,", `, h.Nm[d-1])
-		cols = `"columns": [{"name": "u", "index": 2}], `
+		sep, eSel := ",", ""
+		match = fmt.Sprintf(`"header": "^%s%s", `, h.Nm[d-1], sep)
+		switch h.mk(d) {
+		case "rows2":
+			match, eSel = `"rows": 2, `, `, "line_index": 2`
+		case "hf":
+			match += fmt.Sprintf(`"footer": "^%s%s", `, footerName, sep)
+			eSel = fmt.Sprintf(`, "line_pattern": "^%s%s"`, footerName, sep)
+		}
+		cols = `"columns": [{"name": "u", "index": 2}, {"name": "e", "index": 2` + eSel + `}], `
 	case "fixedlength2":
 		kidsKey, groupType = "child_envelopes", "envelope_group"
+		eSel := ""
 		match = fmt.Sprintf(`"header": "^%s", `, h.Nm[d-1])
-		cols = `"columns": [{"name": "u", "start_pos": 2, "length": 4}], `
+		switch h.mk(d) {
+		case "rows2":
+			match, eSel = `"rows": 2, `, `, "line_index": 2`
+		case "hf":
+			match += fmt.Sprintf(`"footer": "^%s", `, footerName)
+			eSel = fmt.Sprintf(`, "line_pattern": "^%s"`, footerName)
+		}
+		cols = `"columns": [{"name": "u", "start_pos": 2, "length": 4}, {"name": "e", "start_pos": 2, "length": 4` + eSel + `}], `
 	case "edi":
 		kidsKey, groupType = "child_segments", "segment_group"
-		cols = `"elements": [{"name": "u", "index": 1}], `
+		cols = `"elements": [{"name": "u", "index": 1}, {"name": "e", "index": 1}], `
 	}
 	name := "d" + strconv.Itoa(d)
 	if format == "edi" && !h.Grp[d-1] {
@@ -490,17 +552,27 @@ func genHier(r *rand.Rand, n int, names []string) hier {
 		h.Mn = append(h.Mn, mn)
 		h.Mx = append(h.Mx, mx)
 	}
+	shaped := !h.Edi && r.Intn(2) == 0 // csv2 / fixedlength2 record shapes beyond the single named line
 	for i := 1; i <= n; i++ {
 		if h.Grp[i-1] && len(h.kids(i)) == 0 {
 			h.Grp[i-1] = false
 		}
-		if h.Grp[i-1] {
+		mk := "name"
+		if shaped && !h.Grp[i-1] {
+			mk = []string{"name", "name", "rows2", "hf", "hf"}[r.Intn(5)]
+		}
+		if h.Grp[i-1] || mk == "rows2" {
 			h.Nm[i-1] = names[0]
+		}
+		if shaped {
+			h.Mk = append(h.Mk, mk)
 		}
 	}
 	h.Tgt = 1 + r.Intn(n)
 	return h
 }
+
+var names3 = []string{"A", "B", "C", "X"}
 
 func genUnits(r *rand.Rand, h *hier, ds []int, out *[]string, budget int) {
 	for _, d := range ds {
@@ -510,7 +582,18 @@ func genUnits(r *rand.Rand, h *hier, ds []int, out *[]string, budget int) {
 		}
 		for k := 0; k < cnt && len(*out) < budget; k++ {
 			if !h.Grp[d-1] {
-				*out = append(*out, h.Nm[d-1])
+				switch h.mk(d) {
+				case "rows2":
+					*out = append(*out, names3[r.Intn(3)], names3[r.Intn(4)])
+				case "hf":
+					*out = append(*out, h.Nm[d-1])
+					for m := r.Intn(3); m > 0; m-- {
+						*out = append(*out, names3[r.Intn(4)])
+					}
+					*out = append(*out, footerName)
+				default:
+					*out = append(*out, h.Nm[d-1])
+				}
 			}
 			genUnits(r, h, h.kids(d), out, budget)
 		}
@@ -547,7 +630,7 @@ func c05Drive(args []string) int {
 			p := r.Intn(len(units))
 			switch r.Intn(3) {
 			case 0:
-				units = append(units[:p], append([]string{[]string{"X", "A", "B", "C"}[r.Intn(4)]}, units[p:]...)...)
+				units = append(units[:p], append([]string{[]string{"X", "A", "B", "C", footerName}[r.Intn(5)]}, units[p:]...)...)
 			case 1:
 				units = append(units[:p], units[p+1:]...)
 			default:
